@@ -492,6 +492,12 @@ def oracle(case, obs):
                  "complete byte-identical copy", final["state"])
         # P4 truthfulness
         created = [t for t in final["trace"] if t[0] == "open" and os.path.basename(t[1]) not in (START, END)]
+        if case.get("workers", 0) > 1 and not created:
+            # files are written by joblib worker processes (not traced): fall back to the state difference
+            before = pre["dst"]["files"] if pre is not None and pre["dst"] is not None else [0] * len(final["state"]["dst"]["files"])
+            after = final["state"]["dst"]["files"] if final["state"]["dst"] is not None else before
+            if pre is None or pre["dst"] is None or not pre["dst"]["end"]:
+                created = [i for i, (a, b) in enumerate(zip(before, after)) if b == 2]
         removed = [t for t in final["trace"] if t[0] in ("remove", "rmdir") and not _is_tmp(case, t[1])]
         if res is not None:
             if res[0] != bool(created):
@@ -678,6 +684,11 @@ def requests_for(case, obs):
                 dirs.add(dst_rel(case) + TMP_SUFFIX)
         mid_op = a["next_op"] if a.get("mid") and a["next_op"] and a["next_op"][0] == "open" else None
         labels = canon_trace(case, a["trace"], dirs, mid_op)
+        if case.get("workers", 0) > 1 and ["createEnd"] in labels and not any(l[0] == "create" for l in labels):
+            # num_workers > 1: the files are written by untraced joblib workers in an unobservable order (an oracle of the model
+            # anyway); a call that reached the end marker has waited for all of them
+            k = labels.index(["createEnd"])
+            labels = labels[:k] + [x for i in range(len(expected_tree(case))) for x in (["create", i], ["fill", i])] + labels[k:]
         reqs.append({"op": "cp.attempt", "src": src, "fs": model_state(case, pre), "tape": tape_of(labels)})
         exps.append({"labels": labels, "fs": model_state(case, a["state"]), "status": a["status"],
                      "result": normalise_result(case, a["result"]) if a["status"] == "returned" else None})
